@@ -200,6 +200,17 @@ def _mutate(name):
         ns = dict(src_fn.__globals__)
         exec(code, ns)
         cc.Compiler.visit_Repeat = ns['visit_Repeat']
+    elif name == 'visit_text_skips_escaped':
+        import inspect
+        import textwrap
+        src_fn = zp.MacroProgram.visit_text
+        code = textwrap.dedent(inspect.getsource(src_fn)).replace(
+            "if self._interpolation[-1] and '${' in node:",
+            "if self._interpolation[-1] and '${' in node.replace('$${', ''):")
+        assert code != textwrap.dedent(inspect.getsource(src_fn))
+        ns = dict(src_fn.__globals__)
+        exec(code, ns)
+        zp.MacroProgram.visit_text = ns['visit_text']
     elif name == 'pipe_catches_zerodiv':
         from chameleon import tales
         tales.TalesExpr.exceptions = tales.TalesExpr.exceptions + (ArithmeticError,)
@@ -229,12 +240,19 @@ def collect_sources(node, acc):
     if 'interp' in node:
         ex(node['interp'])
         return
+    if 'dollar' in node:
+        return
+    if 'comment' in node or 'cdata' in node:
+        for part in node.get('comment', node.get('cdata')):
+            if not isinstance(part, str) and 'interp' in part:
+                ex(part['interp'])
+        return
     for sc, n, e in node.get('define', []):
         ex(e)
     for n, v in node.get('static', []):
         if not isinstance(v, str):
             for part in v:
-                if not isinstance(part, str):
+                if not isinstance(part, str) and 'interp' in part:
                     ex(part['interp'])
     for k in ('condition', 'switch', 'case'):
         if k in node:
@@ -261,7 +279,12 @@ def prepare(cfg):
     opts = dict(cfg.get('options', {}))
     if cfg.get('handler'):
         opts['on_error_handler'] = lambda exc: HANDLER_CALLS.append(_base_name(exc))
-    STATE['template'] = PageTemplate(text, **opts)
+    STATE['compile_error'] = None
+    try:
+        STATE['template'] = PageTemplate(text, **opts)
+    except Exception as exc:        # a valid generated program must compile: counted as disagreement
+        STATE['template'] = None
+        STATE['compile_error'] = '%s: %s' % (type(exc).__name__, str(exc)[:300])
     STATE['case_and_condition'] = any('case' in e and 'condition' in e for e in tprog.walk(prog))
     srcs = set()
     collect_sources(prog, srcs)
@@ -337,6 +360,8 @@ def run_engine(bindings):
     b['show'] = show
     b['L'] = make_L(outs, vals, LOG)
     del HANDLER_CALLS[:]
+    if STATE.get('compile_error'):
+        return ('compile-error', STATE['compile_error'], [])
     try:
         out = STATE['template'].render(**b)
         if CFG.get('handler'):
@@ -364,7 +389,8 @@ def run_ref(bindings, **kw):
     outs = bindings.pop('__outs__', {})
     vals = bindings.pop('__vals__', {})
     ref = refsem.Ref(DEFAULT_MARKER, STATE['codes'],
-                     helpers={'rec': rrec, 'show': show, 'L': make_L(outs, vals, log)}, log=log, **kw)
+                     helpers={'rec': rrec, 'show': show, 'L': make_L(outs, vals, log)}, log=log,
+                     options=CFG.get('options'), **kw)
     scope = refsem.RScope(bindings)
     out = []
     try:
